@@ -33,7 +33,7 @@ impl Monitor for C12 {
 		"C12"
 	}
 	fn rule(&self) -> String {
-		"C01's replay space (small/medium histories; every 5th generated replay also carries unknown events with 2..600-byte payloads); the incremental API (parse_header, parse_start, parse_event per call, parse_metadata) is driven (with the options argument rotating over None / default / skip_frames / compute_hash - none may matter on this path) over the instrumented source under schedules {whole, 1-byte, fixed 2/3/7/64 and one drawn from {4..17, 255..257, 512, 8192}, random 1..4, random 1..200, whole reads with every k-th call answered by ErrorKind::Interrupted, two-piece splits: ALL for every 6th file <= 2.5 KB in quick and every 2nd file <= 8 KB in thorough, else 32 random}. Online monitor after EVERY call: bytes_read() == bytes delivered by the counting source - 15 (header); row count never decreases; the completed rows (rows closed by Frame End >= 3.0; all but the open row otherwise) equal, column by column, the same prefix of the one-shot game (checked at every event for the newest completed row and in full at end of stream). Final: start/end/metadata/gecko via the Game trait equal the one-shot result. One evaluation = one (file, schedule) run. distinct = workload classes x schedule; counters give calls monitored.".into()
+		"C01's replay space (small/medium histories; every 5th generated replay also carries unknown events with 2..600-byte payloads); the incremental API (parse_header, parse_start, parse_event per call, parse_metadata) is driven (with the options argument rotating over None / default / skip_frames / compute_hash - none may matter on this path) over the instrumented source under schedules {whole, 1-byte, fixed 2/3/7/64 and one drawn from {4..17, 255..257, 512, 8192}, random 1..4, random 1..200, whole reads with every k-th call answered by ErrorKind::Interrupted, two-piece splits: ALL for every 6th file <= 2.5 KB in quick and every 2nd file <= 8 KB in thorough, else 32 random}. Online monitor after EVERY call: bytes_read() == bytes delivered by the counting source - 15 (header); row count never decreases; the completed rows (rows closed by Frame End >= 3.0; all but the open row otherwise) equal, column by column, the same prefix of the one-shot game (checked at every event for the newest completed row and in full at end of stream). Final: start/end/metadata/gecko via the Game trait equal the one-shot result. For a doubled Game End every other schedule keeps calling parse_event until the declared raw length is used up (the second Game End is an event like any other). Truncated streams: each file is also cut at up to 13 points inside the raw element (after the code byte / in the middle / one byte short of every unknown event's payload, plus 4 random points) and driven the same way: every call that returns Ok must account for exactly the bytes delivered and the run must end in an error. One evaluation = one (file, schedule) run. distinct = workload classes x schedule; counters give calls monitored.".into()
 	}
 	fn assumptions(&self) -> Vec<String> {
 		vec!["the one-shot reader is the reference for the final game (itself checked against the independent model by C03/C04)".into(), "before v3.0 nothing in the stream closes the last frame, so the last row is only compared when it is materially complete".into()]
@@ -114,7 +114,13 @@ impl Monitor for C12 {
 			// none of the options may change what is parsed or how bytes are counted
 			let opt_variants = [None, Some(peppi::io::slippi::de::Opts::default()), Some(peppi::io::slippi::de::Opts { skip_frames: true, compute_hash: false, debug: None }), Some(peppi::io::slippi::de::Opts { skip_frames: false, compute_hash: true, debug: None })];
 			let opts = opt_variants[(idx + out.evals as usize) % 4].clone();
-			let r = common::incremental_opts(&mut src, opts.as_ref(), |st, step, _raw_len| {
+			// a doubled Game End is two events: every other schedule keeps calling parse_event until the
+			// declared raw length is used up instead of stopping at the first Game End
+			let through = truth.ends.len() == 2 && truth.junk_after_end == 0 && out.evals % 2 == 0;
+			if through {
+				out.class("driven-through-second-game-end".to_string());
+			}
+			let r = common::incremental_full(&mut src, opts.as_ref(), through, |st, step, _raw_len| {
 				calls_monitored += 1;
 				if problems.len() >= 2 {
 					return;
@@ -221,6 +227,56 @@ impl Monitor for C12 {
 			if out.violations.len() >= 4 {
 				break;
 			}
+		}
+		// Streams that END inside the raw element (a replay still being written, a cut file): every
+		// call that returns Ok must still account for exactly the bytes delivered, and the run as a
+		// whole must fail like the one-shot reader does, not report a finished game.
+		if truth.declared_raw_len > 0 && out.violations.is_empty() {
+			let p = crate::mutate::split(&bytes, &truth);
+			let mut off = 15 + 2 + 3 * p.table.len();
+			let mut cuts: Vec<usize> = vec![];
+			let raw_end = (15 + truth.declared_raw_len as usize).min(bytes.len());
+			for (code, pl) in &p.events {
+				let known = matches!(*code, 0x10 | 0x36..=0x3d);
+				if !known && pl.len() >= 2 {
+					// inside an unknown event: after its code byte, in the middle, one byte short
+					cuts.extend([off + 1, off + 1 + pl.len() / 2, off + pl.len()]);
+				}
+				off += 1 + pl.len();
+			}
+			cuts.truncate(9);
+			for _ in 0..4 {
+				cuts.push(rng.range(16, raw_end.max(18) - 1));
+			}
+			for cut in cuts.into_iter().filter(|c| *c >= 16 && *c < raw_end) {
+				out.evals += 1;
+				let pol = if cut % 2 == 0 { Policy::Whole } else { Policy::Fixed(7) };
+				let mut src = Src::new(Arc::new(bytes[..cut].to_vec()), pol.clone());
+				let stats = src.stats();
+				let mut problem: Option<String> = None;
+				let r = common::incremental(&mut src, |st, step, _| {
+					calls_monitored += 1;
+					if matches!(step, Step::Start | Step::Event(_)) && problem.is_none() {
+						let delivered = stats.bytes();
+						if st.bytes_read() + 15 != delivered {
+							problem = Some(format!("after {:?}: bytes_read()={} but the stream cut at {} delivered only {} (-15 header = {})", step, st.bytes_read(), cut, delivered, delivered as i64 - 15));
+						}
+					}
+				});
+				if let Some(d) = problem {
+					out.violate(format!("bytes_read;truncated-stream;sched={}", pol.name()), format!("{} cut at byte {}: {}", desc, cut, d), Some(&bytes[..cut]));
+				} else if r.is_ok() {
+					out.violate("truncated-stream-accepted", format!("{} cut at byte {} of {} (inside the raw element): the incremental run reported a complete game", desc, cut, bytes.len()), Some(&bytes[..cut]));
+				} else if matches!(r, Err(common::Fail::Panic(_))) {
+					out.count("truncated_stream_panicked(C06's business)", 1);
+				} else {
+					out.count("truncated_streams_rejected_with_exact_accounting", 1);
+				}
+				if out.violations.len() >= 2 {
+					break;
+				}
+			}
+			out.class("truncated-streams".to_string());
 		}
 		out.count("calls_monitored", calls_monitored);
 		if idx % 50 == 0 {
